@@ -46,6 +46,9 @@ CLAIMED = {
     "C04": ("fault enumeration: every cut offset of generated frame streams against a reference frame parser, under the deterministic scheduler with generated waiters; focused exhaustive single preemption around connection loss; real SIGKILLs of workers and forwarders",
             "Generated peer-to-survivor frame streams are cut after every byte offset and delivered with generated chunking through the real IO classes to a real Gateway with generated blocked receivers, waitclose callers, callbacks (also registered while the loss is processed), senders and dropped channels; the reference parser decides which frames arrived completely and hence exactly what every waiter must see before EOFError; 'blocks forever' is decided by the scheduler. A second part enumerates every single line-level preemption inside the loss/registration functions; a third kills real popen/socket/via workers (or the forwarding gateway) at generated moments.",
             "Cut offsets are exhaustive per stream (streams up to 420 bytes); schedules sampled / single-preemption enumerated. Real part: 30 s bound.", "3/C04"),
+    "C18": ("concurrent channel creation and channel-over-channel transfer programs under the deterministic scheduler (generated schedules, focused exhaustive single preemption); token-routing and id oracle; table-size comparison after N and 2N cycles on a real worker",
+            "Generated programs create channels concurrently on both sides of an in-process gateway pair, pass them over channels (bare and nested in list/tuple/dict), exchange tokens both ways and close or drop them; ids must be distinct per side and disjoint between sides, every token must arrive on its own channel, transferred channels keep their id, and all tables must be empty once everything settled. On a real popen worker the table sizes after N and after 2N cycles are compared (growth is the claim).",
+            "Sampling of schedules; focused single-preemption enumeration strided in quick. History lengths 200 (quick) / 3000 (thorough) cycles.", "3/C18"),
 }
 
 NOT_APPLICABLE = {}
